@@ -322,6 +322,7 @@ func (fr *Frame) applyContract(ins ssa.Instruction, c *Contract, key string, cal
 	ex := fr.ex
 	vc := ex.vc
 	vc.comment("call " + key + " by contract")
+	vc.note("uses-contract\t" + key)
 	pre := fr.cur.Clone()
 	env := &Env{ex: ex, vars: map[string]*Val{}, cur: pre, old: pre, fr: fr}
 	// bind parameters
